@@ -672,6 +672,9 @@ class FuncGraph:
                     for a in list(n.args) + [k.value for k in n.keywords]:
                         if isinstance(a, ast.Name):
                             names.add(a.id)
+                # xs.append(v) / xs.extend(...) / ... : a list that grows in the block is carried around it
+                if isinstance(n.func, ast.Attribute) and isinstance(n.func.value, ast.Name) and n.func.attr in ('append', 'extend', 'insert', 'pop', 'remove', 'sort', 'reverse', 'clear'):
+                    names.add(n.func.value.id)
                 s2.generic_visit(n)
 
             def visit_ListComp(s2, n):
@@ -1587,8 +1590,14 @@ class FuncGraph:
             if tail is not None:
                 self.bind(e.func.value.id, self.mk('binop', ('Add', f.args[0], tail), e), env, e)
                 return const(None, e, self.fn)
-        if f.op == 'attr' and f.args[1] in ('insert', 'pop', 'remove', 'sort', 'reverse', 'clear') and isinstance(e.func, ast.Attribute) and isinstance(e.func.value, ast.Name) \
-                and e.func.value.id in env and env[e.func.value.id] is f.args[0] and (self._list_valued(f.args[0]) or f.args[0].op == 'mutated'):
+        def grown(t_, depth=0):
+            # a list (literal, comprehension, already changed in place), also when it is carried around a loop
+            if self._list_valued(t_) or t_.op in ('mutated', 'list'):
+                return True
+            return t_.op == 'mu' and depth < 4 and grown(t_.args[0], depth + 1)
+        if f.op == 'attr' and (f.args[1] in ('insert', 'pop', 'remove', 'sort', 'reverse', 'clear') or (f.args[1] in ('append', 'extend') and self._loops)) \
+                and isinstance(e.func, ast.Attribute) and isinstance(e.func.value, ast.Name) \
+                and e.func.value.id in env and env[e.func.value.id] is f.args[0] and grown(f.args[0]):
             # a list that is changed in place by a method the forms above do not describe: afterwards the name denotes SOME list derived from the old one - not the
             # old value (the term of the old value would claim elements and an order that no longer hold)
             t = self.mk('call', (f, tuple(args), tuple(kws)), e)
